@@ -138,20 +138,12 @@ def run(ctx: Ctx):
         # duplicate whatever it carries, and is answered 5012 - not 5005 (again)
         cons_o = cons + "#before-validation"
         ctx.inst(cons_o)
-        dup_ifs = [x for x in ast.walk(R.f.node) if isinstance(x, ast.If)
-                   and f"{msg}.header.is_retransmit" in ast.unparse(x.test)]
-        in_dup_test = {id(y) for x in dup_ifs for y in ast.walk(x.test)}
-        tflag_tests = [t_ for t_ in g.nodes if t_.kind == "test" and t_.ast is not None
-                       and id(t_.ast) in in_dup_test]
-        MISSING = K("E_RESULT_CODE_DIAMETER_MISSING_AVP") if "K" in dir() else None
-        s5005 = [s_ for s_ in R.sends if any(
-            isinstance(x.ast, ast.Assign) and "MISSING_AVP" in ast.unparse(x.ast.value)
-            and g.can_reach(x, s_) and g.dominated(s_, [x]) for x in g.nodes if x.kind == "stmt" and x.ast is not None
-            and isinstance(x.ast, ast.Assign))]
-        if tflag_tests and s5005 and not all(g.dominated(s_, tflag_tests, effect=False) for s_ in s5005):
-            ctx.fail(cons_o, g.loc(s5005[0]), "the 5005 answer of the mandatory-AVP validation can be sent "
-                     "without the duplicate check having run first: the T-flagged repeat of an "
-                     "answered request that lacks a mandatory AVP is answered 5005 instead of 5012")
+        vtests = [t_ for t_ in g.nodes if t_.kind == "test" and t_.ast is not None
+                  and "validate_received_request_avps" in t_.text(200)]
+        if vtests and any(g.can_reach(t_, n) for t_ in vtests):
+            ctx.fail(cons_o, g.loc(vtests[0]), "the mandatory-AVP validation runs before the duplicate check "
+                     "(the duplicate rejection is reachable from it): the T-flagged repeat of an answered "
+                     "request that lacks a mandatory AVP is answered 5005 instead of 5012")
         # outcome: 5012, one send on the same connection, return before dispatch
         avar = A.dotted(A.store_targets(n.ast)[0]) if A.store_targets(n.ast) else None
         sends = [s for s in R.sends if g.dominated(s, [n])]
